@@ -48,7 +48,7 @@ IsRef(o) == o.t = "mref"
 \* Expression::memory_references, as the set of region names
 RECURSIVE Addrs(_)
 Addrs(e) == CASE e.t = "addr" -> {e.m.name}
-              [] e.t \in {"neg", "fn"} -> Addrs(e.e)
+              [] e.t \in {"neg", "pos", "fn"} -> Addrs(e.e)
               [] e.t = "inf" -> Addrs(e.l) \cup Addrs(e.r)
               [] OTHER -> {}
 AddrsAll(es) == UNION {Addrs(es[n]) : n \in DOMAIN es}
@@ -98,26 +98,47 @@ Reported(i, sigs) ==
 
 ----------------------------------------------------------------------------
 \* 2. Operational semantics of the classical instructions on a tiny memory.
-\* A memory gives every region SemLen cells holding values 0..SemMod-1.  Arithmetic is taken modulo SemMod;
-\* what matters here is only that every operator really depends on each of its operands, which holds.
+\* A memory gives every region SemLen cells holding 2-bit values.  Arithmetic is modulo 4, logic is bitwise,
+\* comparisons are on the integers, immediates are the constant 1.  (Fidelity to the hardware's number
+\* formats is not the point: the point is that each operator really depends on each operand, so that
+\* "consulted" can be *derived* instead of tabulated.  With 1-bit values `IOR x 1` and `GT x 1` would be
+\* constant and the derivation would wrongly conclude that x is not read.)
 
-\* R = the region names of the tiny memory (must cover the regions the instruction mentions)
+\* The tiny memory of an instruction consists of the cells it can touch: the cells of its memory-reference
+\* operands and, for LOAD / STORE, the whole (2-cell) dynamically indexed region.
 SemLen == 2
-SemMod == 2
+SemMod == 4
 SemVals == 0..(SemMod - 1)
-Cells(R) == R \X (0..(SemLen - 1))
-Memories(R) == [Cells(R) -> SemVals]
+Memories(Cs) == [Cs -> SemVals]
 
 ClassicalKinds == {"Move", "Arith", "Logic", "Unary", "Compare", "Convert", "Exchange", "Load", "Store",
                    "JumpWhen", "JumpUnless"}
 CellOf(m) == <<m.name, m.index % SemLen>>
+OperandCells(o) == IF IsRef(o) THEN {CellOf(o.m)} ELSE {}
+WholeRegion(x) == {x} \X (0..(SemLen - 1))
+\* the cells an instruction mentions (pure syntax; this is the tiny memory's domain)
+MentionedCells(i) ==
+    CASE i.k \in {"Move", "Arith", "Logic"} -> {CellOf(i.dst)} \cup OperandCells(i.src)
+      [] i.k = "Convert"  -> {CellOf(i.dst), CellOf(i.src)}
+      [] i.k = "Unary"    -> {CellOf(i.operand)}
+      [] i.k = "Compare"  -> {CellOf(i.dst), CellOf(i.lhs)} \cup OperandCells(i.rhs)
+      [] i.k = "Exchange" -> {CellOf(i.left), CellOf(i.right)}
+      [] i.k = "Load"     -> {CellOf(i.dst), CellOf(i.offset)} \cup WholeRegion(i.source)
+      [] i.k = "Store"    -> WholeRegion(i.destination) \cup {CellOf(i.offset)} \cup OperandCells(i.src)
+      [] i.k \in {"JumpWhen", "JumpUnless"} -> {CellOf(i.cond)}
+      [] OTHER -> {}
 Val(mem, o) == IF IsRef(o) THEN mem[CellOf(o.m)] ELSE 1          \* immediates are the constant 1
+Bit(x, k) == (x \div (IF k = 0 THEN 1 ELSE 2)) % 2
+Bitwise(f(_, _), x, y) == f(Bit(x, 0), Bit(y, 0)) + 2 * f(Bit(x, 1), Bit(y, 1))
+BAnd(p, q) == IF p = 1 /\ q = 1 THEN 1 ELSE 0
+BOr(p, q)  == IF p = 1 \/ q = 1 THEN 1 ELSE 0
+BXor(p, q) == (p + q) % 2
 ArithOp(op, x, y) == CASE op = "MUL" -> (x * y) % SemMod
                        [] op = "SUB" -> (x + SemMod - y) % SemMod
                        [] OTHER -> (x + y) % SemMod              \* ADD; DIV is not total, modelled as ADD
-LogicOp(op, x, y) == CASE op = "AND" -> IF x = 1 /\ y = 1 THEN 1 ELSE 0
-                       [] op = "IOR" -> IF x = 1 \/ y = 1 THEN 1 ELSE 0
-                       [] OTHER -> (x + y) % 2                   \* XOR
+LogicOp(op, x, y) == CASE op = "AND" -> Bitwise(BAnd, x, y)
+                       [] op = "IOR" -> Bitwise(BOr, x, y)
+                       [] OTHER -> Bitwise(BXor, x, y)           \* XOR
 CmpOp(op, x, y) == LET b == CASE op = "EQ" -> x = y [] op = "GT" -> x > y [] op = "GE" -> x >= y
                                  [] op = "LT" -> x < y [] OTHER -> x <= y
                    IN IF b THEN 1 ELSE 0
@@ -128,7 +149,7 @@ Eff(i, mem) ==
       [] i.k = "Convert" -> [asg |-> {<<CellOf(i.dst), mem[CellOf(i.src)]>>}, out |-> 0]
       [] i.k = "Arith"   -> [asg |-> {<<CellOf(i.dst), ArithOp(i.op, mem[CellOf(i.dst)], Val(mem, i.src))>>}, out |-> 0]
       [] i.k = "Logic"   -> [asg |-> {<<CellOf(i.dst), LogicOp(i.op, mem[CellOf(i.dst)], Val(mem, i.src))>>}, out |-> 0]
-      [] i.k = "Unary"   -> [asg |-> {<<CellOf(i.operand), IF i.op = "NOT" THEN 1 - mem[CellOf(i.operand)]
+      [] i.k = "Unary"   -> [asg |-> {<<CellOf(i.operand), IF i.op = "NOT" THEN (SemMod - 1) - mem[CellOf(i.operand)]
                                                              ELSE (SemMod - mem[CellOf(i.operand)]) % SemMod>>},
                              out |-> 0]
       [] i.k = "Compare" -> [asg |-> {<<CellOf(i.dst), CmpOp(i.op, mem[CellOf(i.lhs)], Val(mem, i.rhs))>>}, out |-> 0]
@@ -140,14 +161,20 @@ Eff(i, mem) ==
       [] i.k = "JumpUnless" -> [asg |-> {}, out |-> IF mem[CellOf(i.cond)] = 0 THEN 1 ELSE 0]
 
 \* a cell is consulted iff changing it alone can change the effect
-Consulted(i, R) == {c \in Cells(R) : \E mem \in Memories(R) : \E v \in SemVals :
-                                     Eff(i, mem) # Eff(i, [mem EXCEPT ![c] = v])}
-SemReads(i, R)  == {c[1] : c \in Consulted(i, R)}
-SemWrites(i, R) == {a[1][1] : a \in UNION {Eff(i, mem).asg : mem \in Memories(R)}}
-SemanticsAgrees(i, R) ==
-    i.k \in ClassicalKinds =>
+Consulted(i) == LET Cs == MentionedCells(i) IN
+                {c \in Cs : \E mem \in Memories(Cs) : \E v \in SemVals : Eff(i, mem) # Eff(i, [mem EXCEPT ![c] = v])}
+SemReads(i)  == {c[1] : c \in Consulted(i)}
+SemWrites(i) == {a[1][1] : a \in UNION {Eff(i, mem).asg : mem \in Memories(MentionedCells(i))}}
+\* Instructions that combine a cell with itself (SUB a[0] a[0], XOR a[0] a[0], EQ d a[0] a[0]) compute a
+\* constant: the derivation would (rightly) say the cell is not consulted, while "consults" in the property is
+\* meant operationally.  They are excluded from the judgement; generators do not produce them.
+SelfCombining(i) ==
+    \/ i.k \in {"Arith", "Logic"} /\ IsRef(i.src) /\ CellOf(i.src.m) = CellOf(i.dst)
+    \/ i.k = "Compare" /\ IsRef(i.rhs) /\ CellOf(i.rhs.m) = CellOf(i.lhs)
+SemanticsAgrees(i) ==
+    (i.k \in ClassicalKinds /\ ~SelfCombining(i)) =>
         LET rep == Reported(i, <<>>) IN
-        /\ rep.reads = SemReads(i, R) /\ rep.writes = SemWrites(i, R) /\ rep.captures = {}
+        /\ rep.reads = SemReads(i) /\ rep.writes = SemWrites(i) /\ rep.captures = {}
 
 ----------------------------------------------------------------------------
 \* 3. The rule for instructions whose semantics is outside classical memory.
@@ -181,6 +208,6 @@ NonClassicalAgrees(i, sigs) ==
         Reported(i, sigs) = Declared(i, sigs)
 
 \* what property C27 demands of a reported access triple (used by the model run and by the trace spec)
-Demanded(i, sigs, R) ==
-    IF i.k \in ClassicalKinds THEN Acc(SemReads(i, R), SemWrites(i, R), {}) ELSE Declared(i, sigs)
+Demanded(i, sigs) ==
+    IF i.k \in ClassicalKinds THEN Acc(SemReads(i), SemWrites(i), {}) ELSE Declared(i, sigs)
 =============================================================================
